@@ -48,6 +48,8 @@ def _files():
                      G.seg([(A, ['FULL', 'String', 2, 3]), (B, ['FULL', i32, 3])], chunks=1)]
     fs['nometa'] = [G.seg([(B, ['FULL', i16, 3]), (A, ['FULL', i32, 2])], chunks=1),
                     G.seg([], meta=False, chunks=2), G.seg([], meta=False, chunks=1)]
+    fs['be-ts'] = [G.seg([(A, ['FULL', 'TimeStamp', 2]), (B, ['FULL', i32, 3])], chunks=2, big=True),
+                   G.seg([(A, ['FULL', 'TimeStamp', 2]), (B, ['FULL', i32, 3])], chunks=1, big=False)]
     # chunk starts that are not multiples of the chunk length (3, then 2+2), so "same chunk" cannot be decided by division
     fs['unaligned'] = [G.seg([(A, ['FULL', i32, 3]), (B, ['FULL', i16, 2])], chunks=1),
                        G.seg([(A, ['FULL', i32, 2]), (B, ['FULL', i16, 3])], chunks=2)]
